@@ -99,7 +99,9 @@ namespace bloch::compiler {
     }
 
     void Lexer::reportError(const std::string& msg) {
-        throw BlochError(ErrorCategory::Lexical, m_line, m_column, msg);
+        // like every token, a malformed literal is reported where it starts, not where the
+        // scanner gave up on it (for an unterminated string that is the end of the file)
+        throw BlochError(ErrorCategory::Lexical, m_tokenLine, m_tokenColumn, msg);
     }
 
     Token Lexer::makeToken(TokenType type, const std::string& value) {
